@@ -343,7 +343,7 @@ Proof.
   induction rs as [|r rs IH]; intros nms nulls w; cbn [browser_cache_records].
   - apply WStep_refl; [reflexivity|intros; apply quiet_nil].
   - destruct (nth_error (w_browsers w) j) as [b|] eqn:Nb; [|apply WStep_refl; [reflexivity|intros; apply quiet_nil]].
-    destruct (if (r_type r =? T_PTR)%N then _ else _) as [[keep upd] tgt].
+    destruct (classify _ r) as [[keep upd] tgt].
     assert (H1 : let '(w1, e1) := match tgt with
             | Some t => (mkWorld (w_caches w) (replace_nth j (mkBrowser (b_type b) (b_cache b) (b_services b) (b_hostnames b)
                                    (set_insert (bs_data t) (b_ptr_targets b))) (w_browsers w)) (w_jitter w),
